@@ -12,7 +12,7 @@ store object predates the pack - i.e. keys that exist BOTH inside the pack and a
 foreign keys) x backends (file, packed file, dict with backing file, fake redis):
 the REAL `jug invalidate` (CLI main / InvalidateCommand.run) and the REAL shell invalidate() are
 run on two copies of the same store, then the REAL `jug execute` on the first.  Observed: the
-list handed to remove_many, the sequence of remove() calls of every shell invalidate(), the keys
+set of keys handed to remove_many/remove, the set of keys every shell invalidate() removes, the keys
 in the store before/after, the printed table, the keys dumped by the following execute.  coqc
 evaluates the model on the observed graph (Task.dependencies() of the real objects) and compares.
 Search: an oracle that never looks at jug's dependency walk - the syntactic task references of
@@ -1019,6 +1019,9 @@ def run_target(spec, base, info, otasks, h_of, target, tag, driver):
                     end_process()
             out = '\n'.join(opts.printed)
     obs['remove_many'] = log['remove_many']
+    # the property is about the SET removed: every key handed to remove_many() or remove() during the command,
+    # in whatever order, grouping or multiplicity the command chose
+    obs['removed_keys'] = sorted(set(k for l in log['remove_many'] for k in l) | set(log['remove']))
     obs['msg'], obs['table'] = parse_invalidate_output(out)
     obs['output'] = out[-600:]
     after_a = a.raw()
@@ -1160,7 +1163,7 @@ Definition msg_eqb (a b : cli_msg) : bool :=
   | NothingInvalid, NothingInvalid | NothingRemoved, NothingRemoved | Table, Table => true
   | _, _ => false
   end.
-Definition c09obs := (list (list tid) * list tid * list (fname * nat) * cli_msg   (* remove_many args, keys after, table, message *)
+Definition c09obs := (list tid * list tid * list (fname * nat) * cli_msg          (* keys handed to remove_many/remove, keys after, table, message *)
                       * list (tid * list tid) * list tid                        (* shell: (seed, remove() calls); keys after *)
                       * list tid)%type.                                          (* keys dumped by the following execute *)
 Definition run_case (c : dag * list fname * list tid * c09obs) : bool :=
@@ -1169,14 +1172,14 @@ Definition run_case (c : dag * list fname * list tid * c09obs) : bool :=
     let m := fun nm => mem nm ms in
     let st := st_of before in
     wf_dagb d &&
-    (* the command: what it hands to remove_many (nothing at all when no task is invalid) *)
-    list_eqb (list_eqb Pos.eqb) rm (match cli_invalid d m with [] => [] | l => [l] end) &&
+    (* the command: the SET of keys it asks the store to remove (order, grouping, multiplicity are its business) *)
+    seteq_b rm (cli_invalid d m) &&
     seteq_b (filter (cli_store d m st) before) cli_after &&
     forallb (fun p => Nat.eqb (cli_count d m st (fst p)) (snd p)) table &&
     msg_eqb (cli_message d m st) msg &&
-    (* the shell: one invalidate() per matching task, the exact sequence of remove() calls *)
+    (* the shell: one invalidate() per matching task (the harness's own calls), the SET of keys each removes *)
     list_eqb Pos.eqb (seeds_of d m) (map fst sess) &&
-    forallb (fun p => list_eqb Pos.eqb (shell_invalid d (fst p)) (snd p)) sess &&
+    forallb (fun p => seteq_b (shell_invalid d (fst p)) (snd p)) sess &&
     seteq_b (filter (shell_store d (seeds_of d m) st) before) shell_after &&
     (* the following execute *)
     seteq_b (exec_log d (cli_store d m st)) execd &&
@@ -1209,9 +1212,8 @@ def intern_case(info, obs):
             hid(x)
     for k in obs['before'] + obs['cli_after'] + obs['shell_after'] + obs['executed']:
         hid(k)
-    for l in obs['remove_many']:
-        for k in l:
-            hid(k)
+    for k in obs['removed_keys']:
+        hid(k)
     for seed, l in obs['shell']:
         hid(seed)
         for k in l:
@@ -1230,7 +1232,7 @@ def case_lit(info, obs):
         return None, ids, nids
     sess = '[' + ';'.join('(%d,%s)' % (hid(s), plist(hid(k) for k in l)) for s, l in obs['shell']) + ']'
     o = '(%s, %s, %s, %s, %s, %s, %s)' % (
-        '[' + ';'.join(plist(hid(k) for k in l) for l in obs['remove_many']) + ']',
+        plist(hid(k) for k in obs['removed_keys']),
         plist(hid(k) for k in obs['cli_after']), table, msg, sess,
         plist(hid(k) for k in obs['shell_after']), plist(hid(k) for k in obs['executed']))
     lit = '(%s, %s, %s, %s)' % (dag, plist(nid(n) for n in obs['matched_names']), plist(hid(k) for k in obs['before']), o)
@@ -1239,7 +1241,7 @@ def case_lit(info, obs):
 
 # ---------------------------------------------------------------------------- driver
 def summarize(obs):
-    return dict((k, obs[k]) for k in ('target', 'driver', 'matched_names', 'before', 'both', 'remove_many', 'msg', 'table',
+    return dict((k, obs[k]) for k in ('target', 'driver', 'matched_names', 'before', 'both', 'remove_many', 'removed_keys', 'msg', 'table',
                                       'cli_after', 'shell', 'shell_after', 'executed', 'calls', 'final', 'output')
                 if k in obs)
 
@@ -1266,7 +1268,7 @@ def run_program(ck, spec, state, backend, rng, root, ntargets, cases, metas, sta
         meta['interning'] = {'hashes': ids, 'names': nids}
         cases.append(lit)
         metas.append(meta)
-        inv_n = len(obs['remove_many'][0]) if obs['remove_many'] else 0
+        inv_n = len(obs['removed_keys'])
         ck.distinct(lit, bool(obs['matched_names']) and bool(obs['before']))
         ck.count('backend:%s' % backend)
         if spec.get('setdir'):
@@ -1281,7 +1283,7 @@ def run_program(ck, spec, state, backend, rng, root, ntargets, cases, metas, sta
             ck.count('pack:%s%s' % ((plan['pack'] or {'mode': 'none'})['mode'], '+stale re-dump' if plan['stale'] else ''))
         if obs['both']:
             ck.count('state:key both packed and a file')
-            if obs['remove_many'] and set(obs['both']) & set(obs['remove_many'][0]):
+            if set(obs['both']) & set(obs['removed_keys']):
                 ck.count('state:invalidated key both packed and a file')
         ck.count('invalid tasks:%s' % ('0' if inv_n == 0 else '1-2' if inv_n <= 2 else '3-5' if inv_n <= 5 else '6+'))
         if inv_n and inv_n < len(info):
